@@ -99,7 +99,9 @@ fn('emmet.html_matcher.attributes:attributes', props=P,
    params={'src': 'str', 'name': 'str|None'}, returns='list[AttributeToken]',
    requires=[],
    ensures=['fresh(result)',
-            'forall(0, len(result), lambda i: fresh(result[i]) and attr_ok(result[i], 0, len(src)))'],
+            'forall(0, len(result), lambda i: fresh(result[i]) and attr_ok(result[i], 0, len(src)))',
+            # the tokens are pairwise distinct objects (get_attributes shifts each exactly once)
+            'forall(0, len(result), lambda i: forall(0, i, lambda j: result[i] is not result[j]))'],
    modifies=[], allocates=True,
    locals={'result': 'list[AttributeToken]'},
    loops={0: {'anchor': 'while not scanner.eof()', 'writes': 'fresh',
@@ -107,6 +109,8 @@ fn('emmet.html_matcher.attributes:attributes', props=P,
               # not run; `0 <= end` and `pos <= end` are therefore not invariants, they follow from the guard
               'invariant': ['0 <= scanner.pos', 'scanner.end <= len(src)',
                             'same_str(scanner.string, src)', 'fresh(result)', 'fresh(scanner)',
+                            'forall(0, len(result), lambda i: allocated(result[i]))',
+                            'forall(0, len(result), lambda i: forall(0, i, lambda j: result[i] is not result[j]))',
                             'forall(0, len(result), lambda i: fresh(result[i]) and attr_ok(result[i], 0, len(src)))'],
               'decreases': 'scanner.end - scanner.pos'}})
 
@@ -196,3 +200,104 @@ fn('emmet.html_matcher.scan:scan', props=P,
                             'same_str(scanner.string, source)', 'g_last_end <= scanner.pos', 'len(name) >= 1',
                             'not found', 'start < scanner.pos'],
               'decreases': 'scanner.end - scanner.pos'}})
+
+# ---------------------------------------------------------------------------------------
+# __init__.py: match / balanced_outward (closures over pooled Tag objects, ghost g_last_end)
+# ---------------------------------------------------------------------------------------
+cls('emmet.html_matcher:Tag', fields={'name': 'str', 'start': 'int', 'end': 'int'})
+cls('emmet.html_matcher:MatchedTag',
+    fields={'name': 'str', 'attributes': 'list[AttributeToken]', 'open': 'tuple[int,int]', 'close': 'tuple[int,int]|None'})
+cls('emmet.html_matcher:BalancedTag',
+    fields={'name': 'str', 'open': 'tuple[int,int]', 'close': 'tuple[int,int]|None'})
+cls('emmet.html_matcher.utils:ScannerOptions', fields={'xml': 'any', 'special': 'any', 'empty': 'any'})
+for _k in ('Tag', 'MatchedTag', 'BalancedTag'):
+    fn('emmet.html_matcher:%s.__init__' % _k, inline=True, props=P)
+fn('emmet.html_matcher.utils:ScannerOptions.__init__', props=P, trusted=True,
+   params={'self': 'ScannerOptions', 'options': 'any'}, returns='none',
+   requires=[], ensures=[], modifies=['self.xml', 'self.special', 'self.empty'],
+   note='reads the user supplied options dict (arbitrary): the three fields are opaque values')
+fn('emmet.html_matcher:alloc_tag', inline=True, props=P)
+fn('emmet.html_matcher:release_tag', inline=True, props=P)
+fn('emmet.html_matcher:is_self_close', inline=True, props=P)
+
+fn('emmet.html_matcher:get_attributes', props=P,
+   params={'source': 'str', 'start': 'int', 'end': 'int', 'name': 'str|None'}, returns='list[AttributeToken]',
+   requires=['0 <= start', 'start <= end', 'end <= len(source)'],
+   ensures=['fresh(result)',
+            # every range field shifted by exactly `start`, each once: the ranges now refer to `source`
+            'forall(0, len(result), lambda i: fresh(result[i]) and attr_ok(result[i], start, end))'],
+   modifies=[], allocates=True,
+   loops={0: {'anchor': 'for attr in attrs', 'writes': 'fresh',
+              'invariant': ['_i0 <= len(attrs)', 'fresh(attrs)', 'len(attrs) == len(_seq0)', 'attrs is _seq0',
+                            'forall(0, len(attrs), lambda i: fresh(attrs[i]))',
+                            'forall(0, len(attrs), lambda i: forall(0, i, lambda j: attrs[i] is not attrs[j]))',
+                            'forall(0, _i0, lambda i: attr_ok(attrs[i], start, end))',
+                            'forall(_i0, len(attrs), lambda i: attr_ok(attrs[i], 0, end - start))']}})
+
+define('tag_ok', ['t', 'n'], '0 <= t.start and t.start < t.end and t.end <= n')
+define('open_close_ok', ['o', 'c', 'n'],
+       '0 <= o[0] and o[0] < o[1] and o[1] <= n and (c is None or (o[1] <= c[0] and c[0] < c[1] and c[1] <= n))')
+
+HCB_PARAMS = {'name': 'str', 'elem_type': 'int', 'start': 'int', 'end': 'int'}
+HCB_REQ = ['0 <= start', 'start < end', 'end <= len(source)', 'g_last_end <= start']
+
+HM_CAP = {'pool': 'list[Tag]', 'stack': 'list[Tag]', 'result': 'list[MatchedTag|None]', 'options': 'ScannerOptions',
+          'pos': 'int', 'source': 'str', 'g_last_end': 'int'}
+HM_INV = ['len(result) == 1', 'pool is not stack',
+          'owned(pool) and owned(stack) and owned(result)',
+          'forall(0, len(stack), lambda i: owned(stack[i]))', 'forall(0, len(pool), lambda i: owned(pool[i]))',
+          'result[0] is None or owned(result[0])',
+          # every open tag on the stack ended before anything reported later starts
+          'forall(0, len(stack), lambda i: tag_ok(stack[i], len(source)) and stack[i].end <= g_last_end)',
+          'result[0] is None or (open_close_ok(result[0].open, result[0].close, len(source)) and '
+          ' result[0].open[0] < pos and pos < (result[0].open[1] if result[0].close is None else result[0].close[1]))']
+
+fn('emmet.html_matcher:match.<locals>.scan_callback', props=P,
+   params=HCB_PARAMS, returns='bool|None', captures=HM_CAP,
+   requires=HCB_REQ, closure_invariant=HM_INV, modifies=['owned'],
+   ghost_update=[('g_last_end', 'end')])
+
+fn('emmet.html_matcher:match', props=P,
+   params={'source': 'str', 'pos': 'int', 'opt': 'any'}, returns='MatchedTag|None',
+   requires=[],
+   ensures=['result is None or (open_close_ok(result.open, result.close, len(source)) and '
+            ' result.open[0] < pos and pos < (result.open[1] if result.close is None else result.close[1]))'],
+   modifies=[], allocates=True,
+   locals={'pool': 'list[Tag]', 'stack': 'list[Tag]', 'result': 'list[MatchedTag|None]'})
+
+HO_CAP = {'pool': 'list[Tag]', 'stack': 'list[Tag]', 'result': 'list[BalancedTag]', 'options': 'ScannerOptions',
+          'pos': 'int', 'source': 'str', 'g_last_end': 'int'}
+define('btag_ok', ['b', 'n', 'pos'],
+       'open_close_ok(b.open, b.close, n) and b.open[0] < pos and pos < (b.open[1] if b.close is None else b.close[1])')
+define('bend', ['b'], 'b.open[1] if b.close is None else b.close[1]')
+NESTED = 'forall(0, len(result) - 1, lambda i: result[i + 1].open[0] < result[i].open[0] and bend(result[i]) < bend(result[i + 1]))'
+HO_INV = ['pool is not stack', 'owned(pool) and owned(stack) and owned(result)',
+          # pooling discipline: a Tag object is in at most one place
+          'forall(0, len(stack), lambda i: forall(0, i, lambda j: stack[i] is not stack[j]))',
+          'forall(0, len(pool), lambda i: forall(0, i, lambda j: pool[i] is not pool[j]))',
+          'forall(0, len(stack), lambda i: forall(0, len(pool), lambda j: stack[i] is not pool[j]))',
+          # open tags on the stack are ordered and disjoint
+          'forall(0, len(stack), lambda i: forall(0, i, lambda j: stack[j].end <= stack[i].start))',
+          'forall(0, len(result), lambda i: bend(result[i]) <= g_last_end)',
+          # an open tag either started after a listed entry ended, or ended before it started
+          'forall(0, len(stack), lambda i: forall(0, len(result), lambda j: '
+          '  stack[i].start >= bend(result[j]) or stack[i].end <= result[j].open[0]))',
+          # successive entries strictly contain each other (C16, third sentence)
+          NESTED,
+          'forall(0, len(stack), lambda i: owned(stack[i]))', 'forall(0, len(pool), lambda i: owned(pool[i]))',
+          'forall(0, len(result), lambda i: owned(result[i]))',
+          'forall(0, len(stack), lambda i: tag_ok(stack[i], len(source)) and stack[i].end <= g_last_end)',
+          # every listed entry is well-formed and strictly contains the position
+          'forall(0, len(result), lambda i: btag_ok(result[i], len(source), pos))']
+
+fn('emmet.html_matcher:balanced_outward.<locals>.scan_callback', props=P,
+   params=HCB_PARAMS, returns='bool|None', captures=HO_CAP,
+   requires=HCB_REQ, closure_invariant=HO_INV, modifies=['owned'],
+   ghost_update=[('g_last_end', 'end')])
+
+fn('emmet.html_matcher:balanced_outward', props=P,
+   params={'source': 'str', 'pos': 'int', 'opt': 'any'}, returns='list[BalancedTag]',
+   requires=[],
+   ensures=['forall(0, len(result), lambda i: btag_ok(result[i], len(source), pos))', NESTED],
+   modifies=[], allocates=True,
+   locals={'pool': 'list[Tag]', 'stack': 'list[Tag]', 'result': 'list[BalancedTag]'})
